@@ -6,10 +6,10 @@ CONSTANTS
   HCap = 64
   Parts = 1
   WsMode = FALSE
-  MaxPub = 6
-  MaxRead = 4
+  MaxPub = 4
+  MaxRead = 3
   MaxStall = 2
-  MaxSweep = 3
+  MaxSweep = 2
   MaxLeave = 1
 INVARIANTS Quiescent QueueBound WholeUnits
 VIEW GView
